@@ -382,12 +382,14 @@ class Env:
         if fn in ("proc_oneshot_info", "proc_kinfo_oneshot"):
             if self.mode == "gone":
                 raise make_oserror(["errno", "ESRCH"])
+            if self.mode.startswith("probe-"):
+                raise make_oserror(["errno", self.mode[6:]])
             rec = list(self.default(fn, a, k))
             if self.mode == "zombie":
                 rec[self.mod.kinfo_proc_map["status"]] = self.zombie_const
             return tuple(rec)
         if fn == "os.kill":
-            if self.mode == "gone":
+            if self.mode == "gone" or self.mode.startswith("probe-"):
                 raise make_oserror(["errno", "ESRCH"])
             return None
         return self.default(fn, a, k)
